@@ -1,7 +1,8 @@
 (* C16 -- Contraction schemes compute the term and respect their stated bounds.
    Model: Models/Contraction.v, proofs: Models/ContractionProofs.v. *)
 From Coq Require Import ZArith NArith List Bool Permutation.
-From ADC Require Import Core.Scalar Core.Index Core.Expr Models.Contraction Models.ContractionProofs.
+From ADC Require Import Core.Scalar Core.Index Core.Expr Models.Contraction Models.ContractionProofs
+  Models.ContractionEnumProofs.
 Import ListNotations.
 
 (* Central theorem.  A scheme accepted by the decision procedure [wf_scheme]
@@ -110,24 +111,55 @@ Theorem C16_unoptimized_wf :
 Proof. exact unoptimized_wf_. Qed.
 Print Assumptions C16_unoptimized_wf.
 
-(* "every enumerated / selected scheme is well-formed" is FALSE for the
-   faithful model of _group_objects / _optimize_contractions *)
-Theorem C16_enumerate_schemes_wf_refuted :
-  exists objs tg s, forallb is_base objs = true /\ inodupb tg = true /\
-    optimize_contractions 0%N objs tg None None = OScheme s 7%N /\
-    In s (fst (enumerate_schemes tg None None 0%N objs)) /\
-    wf_scheme objs tg s = false /\
-    (forall c, last s c = c -> c_target c <> tg).
-Proof. exact enumerate_schemes_wf_refuted_. Qed.
-Print Assumptions C16_enumerate_schemes_wf_refuted.
+(* POSITIVE THEOREM (refuted before the fix of _optimize_contractions): with
+   the leak guard every scheme yielded by the enumeration is well-formed, for
+   every consistent request ([consistent tg ix]: the requested targets are
+   pairwise distinct, occur in the term and contain every index that occurs
+   exactly once), all limit settings and all counter values *)
+Theorem C16_enumerate_schemes_wf :
+  forall objs tg mid mg cnt,
+  forallb is_base objs = true -> consistent tg (pool_idx objs) ->
+  forall s, In s (fst (enumerate_schemes tg mid mg cnt objs)) -> wf_scheme objs tg s = true.
+Proof. exact enumerate_schemes_wf_. Qed.
+Print Assumptions C16_enumerate_schemes_wf.
 
-(* a term with exactly one tensor carrying indices: the model of the special
-   case in optimize_contractions raises (TypeError in the implementation) *)
-Theorem C16_single_object_refuted :
-  forall cnt n x ix tg mid mg,
-  optimize_contractions cnt [(n, x :: ix)] tg mid mg = OTypeError.
-Proof. exact single_object_refuted_. Qed.
-Print Assumptions C16_single_object_refuted.
+(* hence every scheme returned by optimize_contractions (incl. the
+   single-object case) is well-formed ... *)
+Theorem C16_optimize_contractions_wf :
+  forall objs tg mid mg cnt s cnt',
+  forallb is_base objs = true -> consistent tg (pool_idx objs) ->
+  optimize_contractions cnt objs tg mid mg = OScheme s cnt' -> wf_scheme objs tg s = true.
+Proof. exact optimize_contractions_wf_. Qed.
+Print Assumptions C16_optimize_contractions_wf.
+
+(* ... and computes the term *)
+Theorem C16_optimize_contractions_correct :
+  forall (S : Scalar) (R : space -> spin -> list nat) (tval : nat -> list nat -> K S)
+         objs tg mid mg cnt s cnt',
+  forallb is_base objs = true -> consistent tg (pool_idx objs) ->
+  optimize_contractions cnt objs tg mid mg = OScheme s cnt' ->
+  forall r : env, run_scheme S R tval s (map r tg) = term_value S R tval tg objs r.
+Proof. exact optimize_contractions_correct_. Qed.
+Print Assumptions C16_optimize_contractions_correct.
+
+(* regression examples on the inputs of the two defects repaired in the
+   implementation (fix: leak guard in _optimize_contractions, single-object
+   case): A_ij B_ik C_ij D_j -> k now yields well-formed schemes only *)
+Theorem C16_regression_unclosed_group :
+  group_objects (map snd wit_objs) [wit_k] None = [[0; 1; 2]; [0; 1; 2; 3]; [0; 2; 3]; [1; 3]] /\
+  forallb (wf_scheme wit_objs [wit_k]) (fst (enumerate_schemes [wit_k] None None 0%N wit_objs)) = true /\
+  length (fst (enumerate_schemes [wit_k] None None 0%N wit_objs)) = 2 /\
+  exists s cnt, optimize_contractions 0%N wit_objs [wit_k] None None = OScheme s cnt /\
+                wf_scheme wit_objs [wit_k] s = true.
+Proof. exact regression_unclosed_group_. Qed.
+Print Assumptions C16_regression_unclosed_group.
+
+Theorem C16_regression_single_object :
+  exists s cnt, optimize_contractions 0%N [(NBase 0, [wit_i; wit_j])] [wit_j; wit_i] None None = OScheme s cnt /\
+    wf_scheme [(NBase 0, [wit_i; wit_j])] [wit_j; wit_i] s = true /\
+    forall d, c_target (last s d) = [wit_j; wit_i].
+Proof. exact regression_single_object_. Qed.
+Print Assumptions C16_regression_single_object.
 
 (* the hypotheses of the theorems above are satisfiable on a non-trivial
    instance: the scheme selected for Y_jb t_jkbc W_ikac -> ia (two steps) *)
